@@ -1033,7 +1033,9 @@ impl ser::Serializer for ValueSerializer {
     where
         T: ser::Serialize + ?Sized,
     {
-        let value = value.serialize(ValueSerializer)?;
+        let value = value
+            .serialize(ValueSerializer)
+            .map_err(none_is_not_the_field)?;
         let mut table = Table::new();
         table.insert(variant.to_owned(), value);
         Ok(table.into())
@@ -1290,7 +1292,8 @@ struct ValueSerializeVec {
     vec: Vec<Value>,
 }
 
-/// A `None` inside `Some(..)` or behind a newtype struct cannot be left out like a `None` field:
+/// A `None` inside `Some(..)`, behind a newtype struct or as the payload of a newtype variant cannot
+/// be left out like a `None` field:
 /// report it in a way the enclosing table cannot mistake for one, which it silently skips.
 fn none_is_not_the_field(e: crate::ser::Error) -> crate::ser::Error {
     match e.inner {
